@@ -40,6 +40,9 @@ FOCUS = {
     "html": ["<b>", "</b>", "<div>", "</div>", "<li>", "<br>", "<ref>", "</ref>", "\n", "a", "<pre>", "</pre>"],
     "calls": ["{{", "}}", "{{{", "}}}", "|", "=", "a", ":", "#if:", "\n", "[[", "]]"],
     "headings": ["==", "=", "===", "\n", "a", " ", "<pre>", "</pre>", "''", "{{", "}}", "----"],
+    # character-level pieces around the tag regexes (token regex and tag_fn's regexes must agree)
+    "tagchars": ["<b", "<br", "</b", " a", "=", '"x"', "'y'", "_", ":", "-", "/", ">", "<", "1"],
+    "urlchars": ["http://x.y", "https://", "//", "[", "]", " ", "a", ".", ",", "?", "=", "|", "<", "\n"],
 }
 
 TOWERS = [
